@@ -132,6 +132,9 @@ func (r *run) syncEvent(as []*actor, e Ev) {
 		if b.T == "local" && (e.T == "sync" || e.T == "par") {
 			r.probe("local-operation-while-sync-in-flight")
 			r.dispatch(b)
+			// quiescence before the answer goes on: what the operation starts (a realtime client's
+			// delivery goroutine finds the semaphore taken by the Sync in flight) must not race with it
+			synctest.Wait()
 		}
 	}
 	// responses
